@@ -49,11 +49,16 @@ class FaultyDest(object):
         self.exc = DEST_EXC[exc_index % len(DEST_EXC)]
         self.every = every
         self.calls = 0
+        self.runaway = False
         self.hits = []
 
     def __call__(self, message):
         k = self.calls
         self.calls += 1
+        if message.get("message_type") == "eliot:destination_failure" and "eliot:destination_failure" in str(message.get("message")):
+            # a report about a failed report (unbounded recursion ahead): stop failing, flag it
+            self.runaway = True
+            return
         if k in self.mask or (self.every and k % self.every == 0):
             self.hits.append((message.get("action_status"), message.get("message_type")))
             raise self.exc("destination fault %d" % k)
@@ -91,6 +96,7 @@ def check(case):
         e = run.errors[0]
         raise Violation("api-raised:%s:%s:%s" % (e["call"], e["exception"].split(":")[0], e["where"]), repr(run.errors))
     require(not run.context_errors, "context", lambda: "; ".join(run.context_errors[:3]))
+    require(not any(f.runaway for f in faulty), "report-on-report", "a failure while delivering a failure report was itself reported (unbounded recursion)")
     hits = [h for f in faulty for h in f.hits]
     info = {
         "dest_hits": len(hits),
